@@ -3,6 +3,7 @@
 #include "spx.hpp"
 #include "gen_lp.hpp"
 #include "certs.hpp"
+#include "z3ref.hpp"
 
 using namespace vf;
 
@@ -31,19 +32,27 @@ static void gen(Case& c)
       c.recs.push_back(Rec("real").add((int) SoPlex::OPTTOL).add(tols[R(0, 3)]));
    }
    c.recs.push_back(Rec("load").add(R(0, 1)));
-   // known finding C01/polish-textbook-rt: exclude exactly RATIOTESTER_TEXTBOOK together with polishing != OFF
-   if(knownKey("polish-textbook-rt"))
+   // known finding C01/polish-nonfast-rt: exclude exactly RATIOTESTER_TEXTBOOK / _HARRIS together with polishing != OFF
+   if(knownKey("polish-nonfast-rt"))
    {
       bool textbook = false;
-      for(auto& r : c.recs) if(r.tag == "int" && r.i(0) == SoPlex::RATIOTESTER && r.i(1) == SoPlex::RATIOTESTER_TEXTBOOK) textbook = true;
+      for(auto& r : c.recs) if(r.tag == "int" && r.i(0) == SoPlex::RATIOTESTER && (r.i(1) == SoPlex::RATIOTESTER_TEXTBOOK || r.i(1) == SoPlex::RATIOTESTER_HARRIS)) textbook = true;
       if(textbook)
          for(auto& r : c.recs)
             if(r.tag == "int" && r.i(0) == SoPlex::SOLUTION_POLISHING && r.i(1) != SoPlex::POLISHING_OFF)
             {
                r.a[1] = "0";
-               ev().count("excluded_known.polish-textbook-rt");
+               ev().count("excluded_known.polish-nonfast-rt");
             }
    }
+   // known finding C01/harris-rt-singular: exclude exactly RATIOTESTER_HARRIS
+   if(knownKey("harris-rt-singular"))
+      for(auto& r : c.recs)
+         if(r.tag == "int" && r.i(0) == SoPlex::RATIOTESTER && r.i(1) == SoPlex::RATIOTESTER_HARRIS)
+         {
+            r.a[1] = std::to_string((int) SoPlex::RATIOTESTER_FAST);
+            ev().count("excluded_known.harris-rt-singular");
+         }
    // known finding C01/starter-free-row: exclude exactly STARTER != OFF on LPs with a free row
    if(knownKey("starter-free-row"))
    {
@@ -123,6 +132,29 @@ static Verdict run(const Case& c)
    }
    else if(cls == CL_OPT)
    {
+      if(st == Solver::UNBOUNDED || st == Solver::INForUNBD)
+      {
+         // adjudication (DESIGN 3.5): boundedness claims are judged on well-posed LPs only. If the recession cone
+         // contains a non-zero direction along which the objective is exactly constant, an arbitrarily small
+         // perturbation of c makes the LP unbounded, so a floating-point UNBOUNDED verdict is counted, not judged.
+         int ray = z3HasNonWorseningRay(c.lp);
+         if(ray != 0)
+         {
+            e.count(ray == 1 ? "unjudged.illposed_boundedness" : "unjudged.z3_unknown");
+            return v;
+         }
+      }
+      if(st == Solver::INFEASIBLE || st == Solver::INForUNBD)
+      {
+         // same for feasibility: if a non-zero zero-margin certificate exists (implicit equalities, duplicate
+         // equations), the LP lies on the boundary of infeasibility and the verdict is counted, not judged.
+         int zm = z3HasZeroMarginCertificate(c.lp);
+         if(zm != 0)
+         {
+            e.count(zm == 1 ? "unjudged.illposed_feasibility" : "unjudged.z3_unknown");
+            return v;
+         }
+      }
       if(st == Solver::INFEASIBLE || st == Solver::UNBOUNDED || st == Solver::INForUNBD)
       {
          v.fail(std::string(statusName(st)) + " returned for an LP with a finite optimum");
@@ -136,6 +168,12 @@ static Verdict run(const Case& c)
    {
       if(cls == CL_UNB)
       {
+         int zm = z3HasZeroMarginCertificate(c.lp);
+         if(zm != 0)
+         {
+            e.count(zm == 1 ? "unjudged.illposed_feasibility" : "unjudged.z3_unknown");
+            return v;
+         }
          v.fail("INFEASIBLE returned for an LP with a feasible point");
          return v;
       }
